@@ -746,24 +746,32 @@ fn ast_sexpr(p: &str) -> String {
             Ast::Concat(c) => format!("(cat {})", c.asts.iter().map(go).collect::<Vec<_>>().join(" ")),
         }
     }
-    // leading flags item
-    let (fl, body): (String, String) = match &ast {
-        Ast::Flags(f) => match flags_of(f) {
-            Some((i, x)) => (format!("{}{}", if i { "i" } else { "" }, if x { "x" } else { "" }), "(empty)".into()),
-            None => ("".into(), go(&ast)),
-        },
-        Ast::Concat(c) => match c.asts.first() {
-            Some(Ast::Flags(f)) => match flags_of(f) {
-                Some((i, x)) => {
+    // leading flags item: at the start of the pattern, i.e. the AST itself, the head of the top
+    // concatenation, or the head of the first alternative of the top alternation
+    fn strip(a: &Ast) -> Option<((bool, bool), String)> {
+        match a {
+            Ast::Flags(f) => flags_of(f).map(|fl| (fl, "(empty)".to_string())),
+            Ast::Concat(c) => match c.asts.first() {
+                Some(Ast::Flags(f)) => flags_of(f).map(|fl| {
                     let rest: Vec<String> = c.asts[1..].iter().map(go).collect();
-                    let b = if rest.len() == 1 { rest[0].clone() } else { format!("(cat {})", rest.join(" ")) };
-                    (format!("{}{}", if i { "i" } else { "" }, if x { "x" } else { "" }), b)
-                }
-                None => ("".into(), go(&ast)),
+                    (fl, if rest.len() == 1 { rest[0].clone() } else { format!("(cat {})", rest.join(" ")) })
+                }),
+                _ => None,
             },
-            _ => ("".into(), go(&ast)),
-        },
-        _ => ("".into(), go(&ast)),
+            Ast::Alternation(al) => match al.asts.first().and_then(strip) {
+                Some((fl, first)) => {
+                    let mut parts = vec![first];
+                    parts.extend(al.asts[1..].iter().map(go));
+                    Some((fl, format!("(alt {})", parts.join(" "))))
+                }
+                None => None,
+            },
+            _ => None,
+        }
+    }
+    let (fl, body): (String, String) = match strip(&ast) {
+        Some(((i, x), b)) => (format!("{}{}", if i { "i" } else { "" }, if x { "x" } else { "" }), b),
+        None => ("".into(), go(&ast)),
     };
     format!("flags={} {}", fl, body)
 }
